@@ -252,7 +252,7 @@ class Ctx:
             for u in self.units():
                 if u.crate == "lelwel" and u is not self.lelwel():
                     continue
-                if "Executable" in u.meta["types"] and u.crate != "lelwel":
+                if "Executable" in u.meta["types"] and u.crate in ("llw", "lelwel_ls"):
                     continue
                 out.extend(find_instances(u))
             self._inst = out
@@ -268,9 +268,13 @@ class Ctx:
         return self._inst
 
 
+_LIBS = set()
+
+
 def _want(h):
-    # examples: analyse the library build only (main.rs re-includes the same modules)
-    if h["crate"].startswith("lelwel_") and h["crate"] not in ("lelwel_ls",) and "Executable" in h["types"]:
+    # examples: analyse the library build only (main.rs re-includes the same modules); an example without a
+    # library target (calc) is analysed through its binary
+    if h["crate"].startswith("lelwel_") and h["crate"] not in ("lelwel_ls",) and "Executable" in h["types"] and h["crate"] in _LIBS:
         return False
     if h["crate"] == "build_script_build":
         return False
@@ -285,6 +289,13 @@ def _load_cached(d):
                 return pickle.load(f)
         except Exception:
             pass
+    import glob as _glob
+    from .facts import read_header
+    _LIBS.clear()
+    for p in _glob.glob(os.path.join(d, "*.jsonl")):
+        h = read_header(p)
+        if h.get("k") == "crate" and "Executable" not in h["types"]:
+            _LIBS.add(h["crate"])
     us = load_units(d, _want)
     try:
         sys.setrecursionlimit(100000)
